@@ -161,6 +161,40 @@ class TransformationPerformer:
           )
           transformation.tensor_id = trans_info.output_tensor_id
 
+  def _update_signature_outputs(
+      self,
+      tflite_model: schema_py_generated.ModelT,
+      subgraph_id: int,
+      outputs_before: list[int],
+      outputs_after: list[int],
+  ):
+    """Keep signature outputs in sync with retargeted subgraph outputs.
+
+    Args:
+      tflite_model: the model being transformed
+      subgraph_id: the subgraph whose outputs may have been retargeted
+      outputs_before: subgraph outputs before the transformation
+      outputs_after: subgraph outputs after the transformation
+
+    Returns:
+      None, modifies tflite_model.signatureDefs in place
+    """
+    if not tflite_model.signatureDefs:
+      return
+    retargeted = {
+        old: new
+        for old, new in zip(outputs_before, outputs_after)
+        if old != new
+    }
+    if not retargeted:
+      return
+    for signature_def in tflite_model.signatureDefs:
+      if signature_def.subgraphIndex != subgraph_id or not signature_def.outputs:
+        continue
+      for tensor_map in signature_def.outputs:
+        if tensor_map.tensorIndex in retargeted:
+          tensor_map.tensorIndex = retargeted[tensor_map.tensorIndex]
+
   def _apply_single_transformation(
       self,
       transformation_inst: qtyping.TensorTransformationInsts,
@@ -205,6 +239,8 @@ class TransformationPerformer:
               original_op_id
           ]
       )
+    subgraph = tflite_model.subgraphs[transformation_inst.subgraph_id]
+    outputs_before = list(subgraph.outputs)
     trans_info = self._transformation_registration[instruction.transformation](
         transformation_utils.TransformationInput(
             instruction.tensor_id,
@@ -215,6 +251,12 @@ class TransformationPerformer:
             consumers,
             instruction.parameters,
         )
+    )
+    self._update_signature_outputs(
+        tflite_model,
+        transformation_inst.subgraph_id,
+        outputs_before,
+        list(subgraph.outputs),
     )
     self._update_instructions(
         transformation_index,
